@@ -537,6 +537,12 @@ func c08GraphUnit() *Unit {
 				"s.yml": "version: '3'\nvars:\n  W: {sh: 'basename \"$PWD\"'}\ntasks:\n  t:\n    cmds:\n      - printf '%s\\n' \"T=s:t PWD=$(basename \"$PWD\") IV={{.W}}\"\n", "d1/.keep": "", "d2/.keep": ""}, "n1:t", []string{"T=s:t PWD=d1 IV=d1"}, 0},
 			{"same-file-twice-dirs-dynvar-2", map[string]string{"Taskfile.yml": "version: '3'\nincludes:\n  n1:\n    taskfile: ./s.yml\n    dir: ./d1\n  n2:\n    taskfile: ./s.yml\n    dir: ./d2\n",
 				"s.yml": "version: '3'\nvars:\n  W: {sh: 'basename \"$PWD\"'}\ntasks:\n  t:\n    cmds:\n      - printf '%s\\n' \"T=s:t PWD=$(basename \"$PWD\") IV={{.W}}\"\n", "d1/.keep": "", "d2/.keep": ""}, "n2:t", []string{"T=s:t PWD=d2 IV=d2"}, 0},
+			{"root-alias-from-included-call", map[string]string{"Taskfile.yml": "version: '3'\nincludes:\n  inc: ./inc.yml\ntasks:\n  rootbuild:\n    aliases: [rb]\n    cmds:\n" + c08Line("root", "rootbuild"),
+				"inc.yml": "version: '3'\ntasks:\n  t:\n    cmds:\n      - task: ':rb'\n  u:\n    deps: [':rb']\n"}, "inc:t", []string{"T=root:rootbuild PWD=proj IV="}, 0},
+			{"root-alias-from-included-dep", map[string]string{"Taskfile.yml": "version: '3'\nincludes:\n  inc: ./inc.yml\ntasks:\n  rootbuild:\n    aliases: [rb]\n    cmds:\n" + c08Line("root", "rootbuild"),
+				"inc.yml": "version: '3'\ntasks:\n  t:\n    cmds:\n      - task: ':rb'\n  u:\n    deps: [':rb']\n"}, "inc:u", []string{"T=root:rootbuild PWD=proj IV="}, 0},
+			{"root-name-from-included-call", map[string]string{"Taskfile.yml": "version: '3'\nincludes:\n  inc: ./inc.yml\ntasks:\n  rootbuild:\n    aliases: [rb]\n    cmds:\n" + c08Line("root", "rootbuild"),
+				"inc.yml": "version: '3'\ntasks:\n  t:\n    cmds:\n      - task: ':rootbuild'\n"}, "inc:t", []string{"T=root:rootbuild PWD=proj IV="}, 0},
 			{"cycle-2", map[string]string{"Taskfile.yml": "version: '3'\nincludes:\n  a: ./a.yml\n", "a.yml": "version: '3'\nincludes:\n  r: ./Taskfile.yml\n"}, "x", nil, 110},
 			{"cycle-3", map[string]string{"Taskfile.yml": "version: '3'\nincludes:\n  a: ./a.yml\n", "a.yml": "version: '3'\nincludes:\n  b: ./b.yml\n", "b.yml": "version: '3'\nincludes:\n  a: ./a.yml\n"}, "x", nil, 110},
 			{"self-include", map[string]string{"Taskfile.yml": "version: '3'\nincludes:\n  me: ./Taskfile.yml\n"}, "x", nil, 110},
